@@ -56,9 +56,10 @@ def verify(outdir, k, sid):
             names = re.findall(r"^func (Test\w+)\(", open(demo).read(), re.M)
             demo_cmd = f"go test -vet=off -count=1 -run '^({'|'.join(names)})$' ./{pkgdir}/"
             with_change = sh(demo_cmd, cwd=wt)
-            sh("git stash -q", cwd=wt)  # demo file is untracked and stays
+            # never `git stash`: the stash is shared by all worktrees. The demo file is untracked and stays.
+            sh("git diff --binary > /tmp/sv/undo.diff && git checkout -- .", cwd=wt)
             without = sh(demo_cmd, cwd=wt)
-            sh("git stash pop -q", cwd=wt)
+            sh("git apply /tmp/sv/undo.diff", cwd=wt)
             print(f"demo with change: rc={with_change.returncode}; without: rc={without.returncode}")
             if not (with_change.returncode != 0 and without.returncode == 0):
                 print(with_change.stdout[-1500:], without.stdout[-1500:]); return False
@@ -69,8 +70,8 @@ def verify(outdir, k, sid):
             exp = open(os.path.join(outdir, f"demo{k}.expected")).read()
             sh("go build -o /tmp/sv/pangaea-seed .", cwd=wt, check=True)
             w = sh(f"/tmp/sv/pangaea-seed {pg[0]}", cwd=wt)
-            sh("git stash -q", cwd=wt); sh("go build -o /tmp/sv/pangaea-seed .", cwd=wt, check=True)
-            wo = sh(f"/tmp/sv/pangaea-seed {pg[0]}", cwd=wt); sh("git stash pop -q", cwd=wt)
+            sh("git diff --binary > /tmp/sv/undo.diff && git checkout -- .", cwd=wt); sh("go build -o /tmp/sv/pangaea-seed .", cwd=wt, check=True)
+            wo = sh(f"/tmp/sv/pangaea-seed {pg[0]}", cwd=wt); sh("git apply /tmp/sv/undo.diff", cwd=wt)
             demo_cmd = f"pangaea {os.path.basename(pg[0])} and compare stdout with demo.expected"
             print("demo with change matches expected:", w.stdout == exp, "; without:", wo.stdout == exp)
             if not (w.stdout != exp and wo.stdout == exp):
